@@ -93,8 +93,19 @@ def truth_coords(grid):
     shape = tuple(int(s) for s in grid.data_shape)
     out = {}
     if isinstance(grid, fm.data.grid_spec.StructuredGrid):
-        axes = [np.asarray(a, dtype=float) for a in grid.data_axes]
-        d = len(axes)
+        # the node axes are what the grid was given; the centre of a cell is the midpoint of its two nodes along every axis
+        # (computed here, not read from `cell_axes` / `data_axes`)
+        nodes = [np.asarray(a, dtype=float) for a in grid.axes]     # xyz order, increasing
+        d = len(nodes)
+        axes = []
+        for a in range(d):                                          # data axis a runs along xyz axis i
+            i = d - 1 - a if grid.axes_reversed else a
+            ax = nodes[i]
+            if grid.data_location == fm.Location.CELLS and len(ax) > 1:
+                ax = (ax[:-1] + ax[1:]) / 2.0
+            axes.append(ax if grid.axes_increase[i] else ax[::-1])
+        if [len(a) for a in axes] != list(shape):
+            axes = [np.asarray(a, dtype=float) for a in grid.data_axes]   # (should not happen: as the grid reports them)
         for idx in np.ndindex(*shape):
             xyz = [0.0] * d
             for a in range(d):
@@ -729,9 +740,26 @@ def run(ctx, res):
         n = min(total, 300)
         check_cases([gen_case(ctx.rng) for _ in range(n)], res)
         total -= n
+    run_pairs(ctx, res, ctx.n(40, 600))
+
+
+def run_pairs(ctx, res, n):
+    """several regridding adapters in one process on projected coordinates (engines/regridpair.py)"""
+    from . import regridpair
+    for _ in range(n):
+        c = regridpair.gen(ctx.rng)
+        res.case(c, True)
+        res.count("part", "regrid-pair/" + c["kind"])
+        o = regridpair.oracle(c, regridpair.run(c))
+        if o:
+            res.fail(c, o[0], o[1])
+            return True
+    return False
 
 
 def search(ctx, res, divergences, broken):
+    if run_pairs(ctx, res, 60):
+        return
     cases = [d["case"] for d in divergences if d.get("case")]
     cases += [gen_case(ctx.rng) for _ in range(ctx.n(1500, 10000))]
     for c in cases:
@@ -749,6 +777,8 @@ def _fails(case):
 
 
 def shrink(ctx, f):
+    if f["case"].get("part") == "regridpair":
+        return f
     case = copy.deepcopy(f["case"])
     best = _fails(case)
     if not best:
@@ -785,6 +815,10 @@ def shrink(ctx, f):
 
 def replay(ctx, rp):
     case = rp.get("input") or (rp.get("diverging_case") or {}).get("case")
+    if case.get("part") == "regridpair":
+        from . import regridpair
+        o = regridpair.oracle(case, regridpair.run(case))
+        return {"fails": bool(o), "oracle": o}
     impl, div, fail, tags = evaluate(case)
     small = {k: (v.tolist() if hasattr(v, "tolist") else v) for k, v in impl.items()}
     return {"fails": bool(fail), "oracle": fail, "impl": small, "correspondence": div, "tags": tags}
